@@ -140,6 +140,15 @@ def rule_name_guards(ctx: Ctx):
                        node=n, mod=fm)
                 sites.append(("stmt", ok))
         ctx.ob("R-C19-4", f"find.{name}/name-pattern-site", found, "site building the name pattern located", node=fn, mod=fm, nontrivial=False)
+    for name in ("extract_pincited_reference_citations", "find_reference_citations_from_markup"):
+        fn = repo.need_func(f"find.{name}")
+        for c in [x for x in walk_local(fn) if isinstance(x, ast.Call) and (dotted(x.func) or "").split(".")[-1] in ("finditer", "compile", "search", "match")
+                  and (dotted(x.func) or "").startswith(("re.", "regex.")) or (isinstance(x, ast.Call) and isinstance(x.func, ast.Attribute) and x.func.attr == "finditer")]:
+            flagged = [k for k in c.keywords if k.arg == "flags"] or (len(c.args) > 2 and dotted(c.func) in ("re.finditer", "re.search", "re.match")) or (
+                len(c.args) > 1 and dotted(c.func) == "re.compile")
+            ctx.ob("R-C19-4", f"find.{name}/case-sensitive-name-match", not flagged,
+                   "the name alternatives passed is_valid_name (which requires an upper-case initial); matching them with flags (IGNORECASE) would accept "
+                   f"spellings that never passed the rule (`{norm(c)[:60]}`)", node=c, mod=fm, nontrivial=bool(flagged))
     iv = repo.need_func("utils.is_valid_name")
     body = [s for s in iv.body if isinstance(s, ast.Return)]
     P = iv.args.args[0].arg
